@@ -103,7 +103,7 @@ fn drive<I: Iterator<Item = ChessMove> + Clone>(ctx: &mut Ctx, s: &Session, mut 
                 let got = op(Op::Iterate, || (ops.len)(&it));
                 if got != want {
                     let f = features(last_mut, &model);
-                    return ctx.fail(Prop::C10, "iter.len", format!("{f};delta={}", got as i64 - want as i64), format!("len() = {got}, {want} moves remain; ops {trace:?}; {fen}"));
+                    return ctx.fail(Prop::C10, "iter.len", f, format!("len() = {got}, {want} moves remain; ops {trace:?}; {fen}"));
                 }
                 let e = op(Op::Iterate, || (ops.is_empty)(&it));
                 if e != (want == 0) {
